@@ -170,8 +170,9 @@ class SpecState(object):
         # guarded fill: build both and select
         h2 = self.heap.copy()
         h2.hist_fill(owner, field, val)
+        from .heap import IMap
         for k in (field, field + "#nan"):
-            self.heap.maps[k] = z3.If(c, h2.maps[k], self.heap.maps[k])
+            self.heap.maps[k] = IMap(c, h2.maps[k], self.heap.maps[k])
 
     # ---- uninterpreted environment
     def comm(self, strat, q, p):
